@@ -192,11 +192,15 @@ def intoStruct (evs : List Ev) : Except PErr Elem := buildFrom wrapper0 evs
 def extendStruct (root : Elem) (evs : List Ev) : Except PErr Elem :=
   buildFrom (wrapper0.setChildren (addUniqueChild wrapper0.children root)) evs
 
+/-- one `extend_struct(..)?` of a caller that stops at the first error -/
+def extendStep (acc : Except PErr Elem) (evs : List Ev) : Except PErr Elem :=
+  match acc with
+  | .ok t => extendStruct t evs
+  | .error e => .error e
+
 /-- `into_struct(D1); extend_struct(D2); …` — stops at the first error, as a caller using `?` would -/
 def parseHistory : List (List Ev) → Except PErr Elem
   | [] => .error .noRoot
-  | d :: ds => ds.foldl (fun acc evs => match acc with
-      | .ok t => extendStruct t evs
-      | .error e => .error e) (intoStruct d)
+  | d :: ds => ds.foldl extendStep (intoStruct d)
 
 end Xsg
